@@ -268,6 +268,12 @@ class Run:
     def log(self, kind, who, x=None):
         self.events.append(Ev(self.nextseq(), self.loop.now if self.loop else 0, kind, who, x))
 
+    def on_task_cancel(self, task):
+        job = getattr(task, "_job", None)
+        node = getattr(job, "_node", None)
+        if node is not None and not task.done():
+            self.log("tcancel", node.name)
+
     # -- queries on the trace
     def evs(self, who, *kinds):
         return [e for e in self.events if e.who == who and e.kind in kinds]
@@ -321,7 +327,7 @@ def _param(api, spec, name, kind, lo=0):
 PERMS = {n: list(itertools.permutations(range(n))) for n in range(0, 7)}
 
 
-def build(api, prof, template_name, tag=""):
+def build(api, prof, template_name, tag="", tweak=None):
     """builds the tree of library objects for one scenario; parameters are drawn from api
     with names suffixed by tag (so that twins can share or not share parameters)"""
     run = Run(api, prof)
@@ -343,6 +349,7 @@ def build(api, prof, template_name, tag=""):
 
     top = mk(template, None)
     run.top = top
+    run.tweak = tweak
     _draw(api, prof, run, top)
     return run
 
@@ -372,6 +379,8 @@ def _draw(api, prof, run, top):
                      else (1 if prof.kind == "corojob" else 0))
         node.sentinel = Sentinel(node.name)
         node.exc = Boom(node.name)
+        if run.tweak is not None:
+            run.tweak(node)
 
     def draw_sched(node):
         n = node.name + t
@@ -479,6 +488,7 @@ def execute(run, on_loop=None):
                  tie_api=api if prof.ties else None, task_hash_mode=thm)
     run.loop = loop
     _LOOPS.append((loop, run))
+    loop.on_task_cancel = run.on_task_cancel
     if on_loop is not None:
         on_loop(loop)
     asyncio.set_event_loop(loop)
@@ -540,3 +550,128 @@ def _cleanup():
 
 
 symx.register_cleanup(_cleanup)
+
+
+class CachedAPI:
+    """memoizes draws by name so that two scenarios built in the same path share their parameters"""
+
+    def __init__(self, api):
+        self._api = api
+        self._memo = {}
+        self.mode = api.mode
+
+    def _get(self, kind, name, *a):
+        key = name
+        if key not in self._memo:
+            self._memo[key] = getattr(self._api, kind)(name, *a)
+        return self._memo[key]
+
+    def int(self, name, lo=None, hi=None):
+        return self._get("int", name, lo, hi)
+
+    def bool(self, name):
+        return self._get("bool", name)
+
+    def flag(self, name):
+        return self._get("flag", name)
+
+    def choice(self, name, k):
+        return self._get("choice", name, k)
+
+    def __getattr__(self, item):
+        return getattr(self._api, item)
+
+
+def execute_shutdown_only(run):
+    """explicit shutdown() of a tree that never ran"""
+    prof = run.prof
+    loop = VLoop(seqgen=run.nextseq, horizon=prof.horizon, tie_api=run.api if prof.ties else None)
+    run.loop = loop
+    _LOOPS.append((loop, run))
+    asyncio.set_event_loop(loop)
+    import sys
+    saved = sys.stdout
+    sys.stdout = _Devnull()
+    try:
+        try:
+            r = run.top.obj.shutdown()
+            run.outcome = ("ret", r)
+        except Deadlock:
+            run.outcome = ("deadlock",)
+        except Horizon:
+            run.outcome = ("horizon",)
+        except (symx.PathAbort, symx.Violation):
+            raise
+        except Exception as e:
+            run.outcome = ("exc", e)
+    finally:
+        sys.stdout = saved
+    run.t_return = loop.now
+    run.seq_return = run.nextseq()
+    return run
+
+
+def flatten(run, api):
+    """the flat twin of a nested scenario: same atomic jobs (same parameters), entry jobs of a nested
+    scheduler inherit its requirements, successors of a nested scheduler require all its jobs"""
+    flat = Run(api, run.prof)
+    top = Node("s0", True, None)
+    top.p = dict(run.top.p)
+    flat.top = top
+    flat.nodes["s0"] = top
+    clones = {}
+
+    def atoms(n):
+        if not n.is_sched:
+            return [n]
+        out = []
+        for c in n.children:
+            out += atoms(c)
+        return out
+
+    def exits(n):
+        a = atoms(n)
+        return a if a else inherited(n)
+
+    def inherited(n):
+        R = []
+        for r in n.reqs:
+            R += exits(r)
+        if not n.reqs and n.parent is not None and n.parent.parent is not None:
+            R += inherited(n.parent)
+        return R
+
+    for j in atoms(run.top):
+        c = Node(j.name, False, top)
+        c.p = j.p
+        c.sentinel = Sentinel(j.name)
+        c.exc = Boom(j.name)
+        clones[j.name] = c
+        top.children.append(c)
+        flat.nodes[c.name] = c
+    for j in atoms(run.top):
+        need = []
+        for r in inherited(j):
+            if clones[r.name] not in need:
+                need.append(clones[r.name])
+        clones[j.name].reqs = need
+    k = len(top.children)
+    objs = []
+    for i, c in enumerate(top.children):
+        c.obj = VJob(flat, c, i, critical=c.p["crit"], forever=c.p["forever"], label=c.name)
+        c.obj._node = c
+        objs.append(c.obj)
+    for c in top.children:
+        for r in c.reqs:
+            c.obj.requires(r.obj)
+    base = PureScheduler if top.p["pure"] else Scheduler
+    cls = _sched_class(base, flat)
+    kw = dict(jobs_window=None, timeout=None, shutdown_timeout=top.p["sdt"], verbose=False)
+    if not top.p["pure"]:
+        kw.update(critical=top.p["crit"], forever=False, label="s0")
+    obj = cls.__new__(cls)
+    obj._vh = 0
+    obj._node = top
+    obj.__init__(*objs, **kw)
+    top.obj = obj
+    return flat
